@@ -116,6 +116,8 @@ impl ZoneStore {
         // Check cache first (short lock scope)
         let invalidations = {
             let mut cache = self.cache.lock().await;
+            #[cfg(feature = "verif-hooks")]
+            crate::verif_hooks::sched::pause("zonestore.resolve.in_cache_check").await;
             if let Some(rset) = cache.resolve(pubkey, name, record_type) {
                 debug!(
                     len = rset.records_without_rrsigs().count(),
@@ -134,6 +136,8 @@ impl ZoneStore {
             #[cfg(feature = "verif-hooks")]
             crate::verif_hooks::sched::pause("zonestore.resolve.after_get").await;
             let mut cache = self.cache.lock().await;
+            #[cfg(feature = "verif-hooks")]
+            crate::verif_hooks::sched::pause("zonestore.resolve.in_cache_fill").await;
             let result = if cache.invalidations == invalidations {
                 cache.insert_and_resolve(&packet, name, record_type)
             } else {
